@@ -179,10 +179,27 @@ class ProtocolMixin(object):
 
     @staticmethod
     def issubclass(sub, cls):
-        suborig = getattr(sub, '__orig__', None)
-        clsorig = getattr(cls, '__orig__', None)
+        # only classes made by customize() stand for their original; a class
+        # that merely inherits from a customized one is a type of its own.
+        suborig = sub.__dict__.get('__orig__', None)
+        clsorig = cls.__dict__.get('__orig__', None)
         return issubclass(sub if suborig is None else suborig,
                           cls if clsorig is None else clsorig)
+
+    @classmethod
+    def is_substitutable(pcls, sub, cls):
+        """Whether an instance of ``sub`` may stand where ``cls`` is declared.
+        Arrays are all customizations of Array: their member types decide."""
+
+        if not pcls.issubclass(sub, cls):
+            return False
+
+        if issubclass(cls, Array) and issubclass(sub, Array):
+            (cmember,) = cls._type_info.values()
+            (smember,) = sub._type_info.values()
+            return pcls.is_substitutable(smember, cmember)
+
+        return True
 
     def get_cls_attrs(self, cls):
         logger.debug("%r attrcache size: %d", self, len(self._attrcache))
